@@ -18,6 +18,7 @@ class C14(vlib.Check):
                              '(their own behaviour is C05\'s subject)',)
 
     def gen(self, rng, tier):
+        yield 'shutdown'      # use of the library during program / thread shutdown (harness probe)
         import base64
         arrays = [b'']
         for pos in range(3):
